@@ -231,6 +231,12 @@ class _BaseLayout(MaildirLayout[_MaildirT], metaclass=ABCMeta):
                       delimiter: str) -> None:
         source_parts = self._split(source_name, delimiter)
         dest_parts = self._split(dest_name, delimiter)
+        source_path = self._get_path(source_parts)
+        dest_path = self._get_path(dest_parts)
+        if not os.path.isdir(source_path):
+            raise FileNotFoundError(source_path)
+        elif os.path.isdir(dest_path):
+            raise FileExistsError(dest_path)
         for i in range(1, len(dest_parts) - 1):
             parts = dest_parts[0:i]
             path = self._get_path(parts)
